@@ -5,6 +5,8 @@ import (
 	"fmt"
 	"go/ast"
 	"os"
+	"reflect"
+	"runtime"
 	"runtime/debug"
 	"runtime/pprof"
 	"sort"
@@ -140,6 +142,19 @@ func runLoaded(p *Program, prop string, spec propSpec, tier, repo, verif, outDir
 		r.Undecide("loader", "only %d repository packages loaded (expected at least 11)", len(p.Pkgs))
 	}
 	for _, rule := range spec.Rules {
+		name := runtime.FuncForPC(reflect.ValueOf(rule).Pointer()).Name()
+		name = name[strings.LastIndex(name, ".")+1:]
+		missing := ""
+		for _, a := range ruleFieldAnchors[name] {
+			if p.LookupField(a.pkg, a.typ, a.field) == nil {
+				missing = a.typ + "." + a.field
+				break
+			}
+		}
+		if missing != "" {
+			r.Undecide("anchors", "%s: field %s not found (renamed or removed); the rule names it and cannot be evaluated", name, missing)
+			continue
+		}
 		rule(r)
 	}
 	for _, a := range spec.Assumptions {
@@ -183,6 +198,9 @@ func dumpCmd(args []string) {
 					pt := pt
 					run.at(&pt)
 					fmt.Printf("      classes: %s\n", run.pathSig(&pt))
+					for _, op := range run.mapOps(f, &pt) {
+						fmt.Printf("      op: %s %s[%s] = %s\n", op.Kind, op.Map, op.Key, op.Val)
+					}
 				}
 			}
 		}
